@@ -796,6 +796,7 @@ def small_family():
     out.append(([leaf("t"), {"id": "t", "type": "VSelf", "inner": leaf("h")}], ("dup-small", True, {})))
     out.append(([{"id": "t", "type": "VSelf", "inner": {"id": "m", "type": "VOne", "x": leaf("t")}}], ("dup-small", True, {})))
     out += tree_family()
+    out += same_class_family()
     out += falsy_family()
     # ids that are falsy / odd strings themselves
     for odd in ("", "0", "False", "None", " a b ", "é.ü"):
@@ -810,6 +811,37 @@ def small_family():
     out.append(([{"id": "p", "type": "VOne", "x": "p"}], ("ref-to-enclosing", True, {})))
     out.append(([{"id": "p", "type": "VPair", "a": leaf("a"), "b": "a"}], None))
     out.append(([{"id": "p", "type": "VRev", "a": leaf("a"), "b": "a"}], ("forward", True, {})))
+    return out
+
+
+def same_class_family():
+    """a nested literal with the id AND THE CLASS of an enclosing one (child, grandchild, list element), generic and real
+    classes: a duplicate test that looks at the class of the holder of the id (`isinstance(dic[id], klass)`) lets exactly
+    these through"""
+    out = []
+    tag = ("dup-small", True, {})
+    leaf = lambda i: {"id": i, "type": "VLeaf"}  # noqa: E731
+    par = lambda i, v: {"id": i, "type": "Parameter", "tensor": v}  # noqa: E731
+    one = lambda i, x: {"id": i, "type": "VOne", "x": x}  # noqa: E731
+    out.append(([one("a", one("a", leaf("c")))], tag))
+    out.append(([one("a", one("m", one("a", leaf("c"))))], tag))
+    out.append(([{"id": "a", "type": "VMany", "xs": [leaf("c"), {"id": "a", "type": "VMany", "xs": []}]}], tag))
+    out.append(([{"id": "a", "type": "VPair", "a": {"id": "a", "type": "VPair", "a": leaf("c"), "b": leaf("d")}, "b": leaf("e")}], tag))
+    out.append(([{"id": "a", "type": "VPair", "a": leaf("e"), "b": {"id": "a", "type": "VPair", "a": leaf("c"), "b": leaf("d")}}], tag))
+    out.append(([{"id": "a", "type": "VRev", "a": {"id": "a", "type": "VRev", "a": leaf("c"), "b": leaf("d")}, "b": leaf("e")}], tag))
+    out.append(([{"id": "a", "type": "VLeaf"}, one("p", one("q", leaf("a")))], tag))
+    dist = lambda i, x: {"id": i, "type": "Distribution", "distribution": "torch.distributions.Normal", "x": x,  # noqa: E731
+                         "parameters": {"loc": 0.0, "scale": 1.0}}
+    joint = lambda i, ds: {"id": i, "type": "JointDistributionModel", "distributions": ds}  # noqa: E731
+    out.append(([joint("j", [joint("j", [dist("d", par("y", [0.5]))])])], tag))
+    out.append(([joint("j", [dist("e", par("z", [1.5])), joint("k", [joint("j", [dist("d", par("y", [0.5]))])])])], tag))
+    out.append(([{"id": "c", "type": "CatParameter", "parameters": [par("u", [1.0]),
+                  {"id": "c", "type": "CatParameter", "parameters": [par("v", [2.0]), par("w", [3.0])]}]}], tag))
+    out.append(([{"id": "v", "type": "ViewParameter", "indices": "0:1",
+                  "parameter": {"id": "v", "type": "ViewParameter", "indices": "0:2", "parameter": par("u", [1.0, 2.0, 3.0])}}], tag))
+    out.append(([{"id": "t", "type": "TransformedParameter", "transform": "torch.distributions.ExpTransform",
+                  "x": {"id": "t", "type": "TransformedParameter", "transform": "torch.distributions.ExpTransform", "x": par("u", [0.5])}}], tag))
+    out.append(([dist("d", par("y", [0.5])), joint("j", [joint("k", [dist("d", par("y2", [0.5]))])])], tag))
     return out
 
 
